@@ -231,3 +231,30 @@ Example C19_bin_search_example : bin_search [(1,3);(5,6);(9,12);(15,15);(20,22)]
 Proof. exact bin_search_example. Qed.
 Example C19_bin_search_empty_refuted : bin_search [] 3 = Raises IndexError.
 Proof. reflexivity. Qed.
+Print Assumptions C19_sd_monotone.
+
+(* overlapping constructor, READ side (the gene side is C19_gene_profile_char): for known features in start order and strictly increasing
+   disjoint read features, read feature r gets
+     1  iff a known feature k with cmp r k overlaps it AND starts after the end of the previous read feature (a feature reached by an earlier
+        read feature is consumed there — the shadow corner, C19_profile_shadowed_match_refuted);
+     else -1 iff its initial value is 0, some known feature starts after end(r) and some known feature starts at or before end(r);
+     else its initial value (-1 if absence_condition(gene_region, r), else 0) *)
+From IQ Require Import OvsReadProofs.
+Theorem C19_overlapping_profile_read_char : forall cmp absent delta K gene_region R mapped polya polyt, starts_sorted K -> sd R ->
+  exists gp rg, overlapping_profile cmp absent delta K gene_region R mapped polya polyt =
+    Some (gp, match R with [] => [] | r :: R' => valO cmp false None K (read_init absent gene_region r) r :: rtail cmp (read_init absent gene_region) false K r R' end, rg).
+Proof. exact overlapping_profile_read_char. Qed.
+Print Assumptions C19_overlapping_profile_read_char.
+Theorem C19_read_value_present_iff : forall cmp gp0 lo K v0 r, v0 <> 1 ->
+  (valO cmp gp0 lo K v0 r = 1 <-> exists k, In k K /\ olt lo (fst k) = true /\ fst k <= snd r /\ fst r <= snd k /\ cmp r k = true).
+Proof. exact valO_1_iff. Qed.
+Print Assumptions C19_read_value_present_iff.
+Theorem C19_read_value_unmatched : forall cmp gp0 lo K v0 r, v0 <> 1 -> matchedO cmp lo K r = false ->
+  valO cmp gp0 lo K v0 r = if (v0 =? 0) && existsb (fun k => snd r <? fst k) K && (gp0 || existsb (fun k => fst k <=? snd r) K) then -1 else v0.
+Proof. exact valO_unmatched. Qed.
+Print Assumptions C19_read_value_unmatched.
+Example C19_overlapping_profile_read_example :
+  starts_sorted [(3,9);(12,20);(30,40)] /\ sd [(1,3);(5,9);(12,21);(50,60)] /\
+  overlapping_profile (fun r k => py_equal_ranges r k 2) (fun reg f => py_contains reg f) 2 [(3,9);(12,20);(30,40)] (3,40) [(1,3);(5,9);(12,21);(50,60)] (1,60) (-1) (-1)
+  = Some ([-1; 1; -1], [-1; -1; 1; 0], (0, 3)).
+Proof. vm_compute. repeat split; try discriminate; try (intros H; discriminate H). Qed.
